@@ -27,8 +27,10 @@ Proof.
   intros H. unfold flat_entry in H. apply andb_true_iff in H as [H1 H2].
   apply negb_true_iff in H1, H2. unfold commit_entry, nonzero.
   destruct (h_cid (ie_hash e) =? zero_cid); [reflexivity|]. cbn [negb].
-  rewrite split_noslash by exact H1. cbn [app walk_parts join fold_left do_build trees_get].
-  rewrite bytes_eqb_sym, H2. rewrite bytes_eqb_refl. cbn [trees_append]. rewrite bytes_eqb_refl. reflexivity.
+  rewrite split_noslash by exact H1. cbn [app walk_parts fold_left do_build].
+  assert (J : join [] (ie_path e) = ie_path e) by (unfold join; destruct (ie_path e); reflexivity).
+  rewrite J. cbn [trees_get]. rewrite bytes_eqb_sym, H2. rewrite bytes_eqb_refl. cbn [trees_append].
+  rewrite bytes_eqb_refl. reflexivity.
 Qed.
 
 Lemma build_flat i : forall es,
@@ -46,7 +48,9 @@ Lemma tree_files_root es :
   tree_files [([], map (fun e => (ie_path e, Some (ie_mode e, ie_hash e))) es)] = map proj es.
 Proof.
   unfold tree_files. cbn [flat_map]. rewrite app_nil_r.
-  induction es as [|e es IH]; [reflexivity|]. cbn [map flat_map join app] in *. f_equal. exact IH.
+  induction es as [|e es IH]; [reflexivity|]. cbn [map flat_map app] in *.
+  assert (J : join [] (ie_path e) = ie_path e) by (unfold join; destruct (ie_path e); reflexivity).
+  rewrite J. f_equal. exact IH.
 Qed.
 
 Lemma write_tree_flat s :
